@@ -19,6 +19,18 @@ package uu
 // encByte: byte p of the encoding of x.
 //@ spec encByte(x []byte, p int) byte = cond(p%62 == 0, byte(32 + fill(len(x), p/62)), cond(p%62 == 1 + 4*((fill(len(x), p/62)+2)/3), '\n', uuchar(sext(xat(x, 45*(p/62) + 3*((p%62-1)/4), 45*(p/62) + fill(len(x), p/62)), xat(x, 45*(p/62) + 3*((p%62-1)/4) + 1, 45*(p/62) + fill(len(x), p/62)), xat(x, 45*(p/62) + 3*((p%62-1)/4) + 2, 45*(p/62) + fill(len(x), p/62)), (p%62-1)%4))))
 
+// dsext: the six-bit value of a uuencode character (backtick and space are 0).
+//@ spec dsext(c byte) byte = cond(c == 96, 0, c - 32)
+// dbyte: byte i of the data on an encoded line (length character at 0, then
+// groups of four characters per three bytes).
+//@ spec dbyte(line []byte, i int) byte = cond(i%3 == 0, (dsext(line[1+4*(i/3)])<<2) + (dsext(line[2+4*(i/3)])>>4), cond(i%3 == 1, (dsext(line[2+4*(i/3)])<<4) + (dsext(line[3+4*(i/3)])>>2), (dsext(line[3+4*(i/3)])<<6) + dsext(line[4+4*(i/3)])))
+
+// The heart of the round trip: decoding the four characters that encode three
+// bytes gives those three bytes back.
+//@ lemma{C15} groupRoundTrip(a byte, b byte, c byte): (dsext(uuchar(sext(a, b, c, 0)))<<2) + (dsext(uuchar(sext(a, b, c, 1)))>>4) == a && (dsext(uuchar(sext(a, b, c, 1)))<<4) + (dsext(uuchar(sext(a, b, c, 2)))>>2) == b && (dsext(uuchar(sext(a, b, c, 2)))<<6) + dsext(uuchar(sext(a, b, c, 3))) == c
+// ...and the length character round-trips for every line length in use.
+//@ lemma{C15} lengthCharRoundTrip(m int): imp(1 <= m && m <= 45, int(dsext(byte(32 + m))) == m)
+
 //@ lemma{C15} encLenBound(n int): imp(n >= 0, 0 <= encLen(n) && encLen(n) <= 63*(1 + n/45))
 //@ lemma{C15} encLenFullLines(k int): imp(k >= 0, encLen(45*k) == 62*k)
 //@ lemma{C15} encLenMonotone(a int, b int): imp(0 <= a && a <= b, encLen(a) <= encLen(b))
@@ -43,23 +55,35 @@ package uu
 //@   ensures source: forall(i, 0 <= i && i < len(src), src[i] == old(src[i]))
 //@   ensures prefix: imp(err == nil, len(res) >= len(dst) && forall(q, 0 <= q && q < len(dst), res[q] == old(dst[q])))
 //@   ensures failure_returns_no_buffer: imp(err != nil, len(res) == 0)
-//@   on assign dec(v): if len(v) == 3 { assert(32 <= chunk[0] && chunk[0] <= 95 && 32 <= chunk[1] && chunk[1] <= 95 && 32 <= chunk[2] && chunk[2] <= 95 && 32 <= chunk[3] && chunk[3] <= 95, "only_alphabet_characters_are_decoded"); assert(sext(v[0], v[1], v[2], 0) == chunk[0] - 32 && sext(v[0], v[1], v[2], 1) == chunk[1] - 32 && sext(v[0], v[1], v[2], 2) == chunk[2] - 32 && sext(v[0], v[1], v[2], 3) == chunk[3] - 32, "decoded_bytes_reencode_to_the_four_characters") }
+//@   on assign dec(v): if len(v) == 3 { assert(32 <= chunk[0] && chunk[0] <= 95 && 32 <= chunk[1] && chunk[1] <= 95 && 32 <= chunk[2] && chunk[2] <= 95 && 32 <= chunk[3] && chunk[3] <= 95, "only_alphabet_characters_are_decoded"); assert(sext(v[0], v[1], v[2], 0) == chunk[0] - 32 && sext(v[0], v[1], v[2], 1) == chunk[1] - 32 && sext(v[0], v[1], v[2], 2) == chunk[2] - 32 && sext(v[0], v[1], v[2], 3) == chunk[3] - 32, "decoded_bytes_reencode_to_the_four_characters"); assert(v[0] == old(dbyte(line, 3*c)) && v[1] == old(dbyte(line, 3*c+1)) && v[2] == old(dbyte(line, 3*c+2)), "group_decodes_to_the_lines_specified_bytes") }
+//@   ghost L0 int = 0
+//@   before "var nDec int": L0 = len(dst)
+//@   after "loop 1.1": assert(len(dst) == L0 + nDec, "line_appends_exactly_its_declared_number_of_bytes"); assert(forall(i, 0 <= i && i < nDec, dst[L0+i] == old(dbyte(line, i))), "line_appends_the_specified_bytes_in_order"); assert(forall(q, 0 <= q && q < L0, dst[q] == pre("1.1", dst[q])), "line_keeps_everything_decoded_before_it")
 //@   loop 1 counter lineN
 //@     invariant apart: disjointSpare(dst, src)
 //@     invariant grows: len(dst) >= len(old(dst))
+//@     invariant source_cells: unchanged(src)
 //@     invariant source: forall(i, 0 <= i && i < len(src), src[i] == old(src[i]))
 //@     invariant prefix: forall(q, 0 <= q && q < len(old(dst)), dst[q] == old(dst[q]))
 //@   loop 1.1 counter c
 //@     invariant off: offset == 1 + 4*c
 //@     invariant rem: nDecRem <= nDec && nDecRem >= 0
+//@     invariant source_cells: unchanged(src)
 //@     invariant apart: disjointSpare(dst, src)
 //@     invariant grows: len(dst) >= len(old(dst))
 //@     invariant source: forall(i, 0 <= i && i < len(src), src[i] == old(src[i]))
 //@     invariant prefix: forall(q, 0 <= q && q < len(old(dst)), dst[q] == old(dst[q]))
-//@   loop 1.1.1
+//@     invariant shape: 0 <= nDec && nDec <= 223 && len(line) - 1 == 4*((nDec+2)/3) && L0 >= len(old(dst))
+//@     invariant length: len(dst) == L0 + min(3*c, nDec) && nDecRem == nDec - min(3*c, nDec)
+//@     invariant decoded: forall(i, 0 <= i && i < min(3*c, nDec), dst[L0+i] == old(dbyte(line, i)))
+//@     invariant kept: forall(q, 0 <= q && q < L0, dst[q] == pre("1.1", dst[q]))
+//@   loop 1.1.1 counter z
 //@     invariant own_copy: !sameArray(chunk, src) && !sameArray(chunk, dst) && fresh(chunk)
+//@     invariant source_cells: unchanged(src)
 //@     invariant source: forall(i, 0 <= i && i < len(src), src[i] == old(src[i]))
 //@     invariant prefix: forall(q, 0 <= q && q < len(old(dst)), dst[q] == old(dst[q]))
+//@     invariant sanitized_so_far: len(chunk) == 4 && forall(u, 0 <= u && u < 4, chunk[u] == cond(u < z && old(line[1+4*c+u]) == 96, 32, old(line[1+4*c+u])))
+//@     invariant output_untouched: len(dst) == L0 + min(3*c, nDec) && forall(i, 0 <= i && i < min(3*c, nDec), dst[L0+i] == old(dbyte(line, i))) && forall(q, 0 <= q && q < L0, dst[q] == pre("1.1", dst[q]))
 //@   loop 1.1.2 counter t
 //@     invariant validated_so_far: forall(u, 0 <= u && u < t, 32 <= chunk[u] && chunk[u] <= 95)
 
